@@ -14,16 +14,16 @@ CHECKS = {
          "Bounded random search: counts starting-vertex pulls after every row and after early drops against the per-start row counts predicted by the reference.", "Trusts the reference's per-start grouping and that GraphAdapter is lazy and one-in-one-out.", "3/C03"),
  "C05": ("invariant over recorded adapter call histories on generated worlds",
          "Bounded random search; every resolve_property call must be covered by required_properties() at call time.", "Trusts the recording wrapper.", "3/C05"),
- "C09": ("generated worlds with stress arguments, no-panic oracle (catch_unwind with location attribution)",
-         "Bounded random search for panics during execution of accepted queries, run to exhaustion and with early drops.", "Trusts that GraphAdapter honours the adapter contract; listed findings are tolerated only on their exact signatures.", "3/C09"),
+ "C09": ("generated worlds with stress arguments, plus loosely typed queries that the frontend itself accepts or rejects, no-panic oracle (catch_unwind with location attribution); thorough tier adds a coverage-guided libFuzzer campaign over the same choice streams",
+         "Bounded random search for panics during execution of accepted queries, run to exhaustion and with early drops; the loose search quantifies over whatever the frontend accepts (operators and tag operands chosen without regard to types, arguments from the engine's recorded variable types).", "Trusts that GraphAdapter honours the adapter contract; listed findings are tolerated only on their exact signatures.", "3/C09"),
  "C06": ("exhaustive enumeration of a small candidate universe plus random candidates, against a reference membership model (guarded re-exports)",
          "Exhaustive for all candidates over null + 5 ordered values (integer universe with mixed encodings, string universe) x all probes; random search over boundary integers and strings beyond that.", "Trusts the membership model written on the public CandidateValue enum; needs the __verif hooks.", "3/C06"),
  "C07": ("exhaustive integer boundary grid plus random operand pairs against reference operator definitions, direct (hooks) and end-to-end through the engine",
          "Exhaustive over all boundary-integer pairs in both encodings for the six comparison operators; random search for the remaining operators and operand kinds, and for the engine's dispatch tables via one-vertex worlds.", "Trusts the reference operators (values.rs) incl. the restricted-grammar regex matcher; needs the __verif hooks.", "3/C07"),
  "C08": ("algebraic laws on generated triples of field values, exhaustive on the integer boundary grid",
          "Exhaustive over all triples of boundary integers in both encodings; random search over all value kinds and nested lists.", "Public API only.", "3/C08"),
- "C10": ("grammar-based and mutation-based query text generation with a no-panic oracle",
-         "Bounded random search over loosely generated documents, token-level mutations of the repository's own queries, and raw strings; finds reachable panics in the frontend's own code, not in the third-party parser.", "Trusts catch_unwind attribution; nesting depth is bounded.", "3/C10"),
+ "C10": ("grammar-based, mutation-based (token level and AST-level point mutations of valid generated queries) and raw-byte query text generation with a no-panic oracle; thorough tier adds coverage-guided libFuzzer campaigns (byte-level text with a token dictionary, seeded with the repository's queries; and over the structured choice streams)",
+         "Bounded random search over loosely generated documents, valid generated queries with one to three point mutations, token-level mutations of the repository's own queries, and raw strings with multi-byte characters; finds reachable panics in the frontend's own code, not in the third-party parser.", "Trusts catch_unwind attribution; nesting depth is bounded.", "3/C10"),
  "C11": ("invariant checker over the public IR fields on every accepted generated or mutated query",
          "Bounded random search; the checker is written from the property statement, independent of ir/indexed.rs.", "Trusts the checker's reading of the statement.", "3/C11"),
  "C12": ("generated argument-map edits against a harness type model and the documented variable-type inference",
@@ -32,9 +32,9 @@ CHECKS = {
          "Bounded random search on generated worlds with schema-conforming data.", "Trusts the harness type model and the documented nullability/list rule.", "3/C13"),
  "C14": ("repeated evaluation with fresh hash seeds in-process and digest comparison across separately spawned processes",
          "Bounded random search over valid queries, hostile query text and mutated schemas; each case digested 8x in-process and in 3-5 processes.", "Trusts that digests cover IR/error text, rows and adapter call traces; process-level hash seeds vary per process.", "3/C14"),
- "C15": ("round trip through the tracing adapter, RON serialisation and trace replay on generated worlds",
-         "Bounded random search; replay uses only the trace (TraceReaderAdapter).", "Trusts the repo's assert_interpreted_results as the replay driver.", "3/C15"),
- "C16": ("round-trip oracles on generated values, types and compiled queries (RON, JSON, untagged JSON, Display/parse)",
+ "C15": ("round trip through the tracing adapter, RON serialisation and trace replay on generated worlds, over one-in-one-out adapters and over adapters that read ahead by generated order-preserving schedules",
+         "Bounded random search; replay uses only the trace (TraceReaderAdapter). Two listed findings about replaying traces of adapters that pull at construction time or poll an exhausted input again are excluded by construction from the main search and included in a second one.", "Trusts the repo's assert_interpreted_results as the replay driver.", "3/C15"),
+ "C16": ("round-trip oracles on generated values, types and compiled queries (RON, JSON, untagged form with and without JSON text, Display/parse); thorough tier adds coverage-guided libFuzzer campaigns over JSON / RON text that deserialises as a value or type",
          "Bounded random search with bit-exact float comparison; types up to the documented maximum list depth.", "Public API only; ron and serde_json as used by the repo.", "3/C16"),
  "C17": ("exhaustive enumeration of 90 types (pairs, triples, values) against a pointwise lattice model, plus random deep types (guarded re-exports)",
          "Exhaustive for 3 base names x list depth 0-3 x all nullability patterns; random up to depth 30.", "Trusts the Ty model; needs the __verif hooks.", "3/C17"),
@@ -46,8 +46,8 @@ CHECKS = {
          "Bounded random search; the pruning adapter uses static and dynamic candidates and mandatory edges (one level deep) exactly where the hint API documents them as binding; any change in the row sequence is a violation, attributed to the hint source by re-runs.", "Trusts the candidate membership model and that pruning uses only binding hints.", "3/C04"),
  "C20": ("fixed full-coverage introspection queries on generated schemas compared with facts computed from the schema AST",
          "Bounded random search over valid schemas with docs, hierarchies and parameter defaults; results compared as sets; the introspection adapter is also run through check_adapter_invariants.", "Trusts the AST renderer and fact extraction.", "3/C20"),
- "C22": ("reference interpreter plus metamorphic observer injection on fold-biased worlds",
-         "Bounded random search: engine vs reference, and engine vs engine with observers (count output, inner output, count tag consumed by an always-true sibling-fold filter) added to a filtered fold.", "Trusts the reference interpreter and that the injected observers are semantically neutral.", "3/C22"),
+ "C22": ("reference interpreter plus metamorphic observer injection and observer removal on fold-biased worlds; thorough tier adds coverage-guided libFuzzer campaigns over the same choice streams",
+         "Bounded random search: engine vs reference; engine vs engine with observers (count output, inner output, count tag consumed by an always-true sibling-fold filter) added to a filtered fold; and engine vs engine with every output removed from a filtered fold (which makes it eligible for early termination). One to three filters per fold count.", "Trusts the reference interpreter and that the injected observers are semantically neutral.", "3/C22"),
  "C23": ("metamorphic relations engine-vs-engine on generated worlds",
          "Bounded random search over eight transformations with known effect (sub/super-multiset, equality, partition, renaming).", "Trusts that each transformation is applied only where its documented precondition holds.", "3/C23"),
  "C25": ("single-fault injection into a contract-abiding adapter over generated schemas",
@@ -65,11 +65,16 @@ CHECKS = {
          "Bounded random search; every adapter call must name defined types/fields, legal coercions, exactly the declared parameters with predicted values, and instances of the named type.", "Trusts the schema AST model and the recording wrapper.", "3/C21"),
 }
 
+FUZZED = {"C01", "C02", "C03", "C04", "C05", "C09", "C10", "C11", "C12", "C13", "C15", "C16", "C19", "C21", "C22", "C23"}
+
+
 def main():
     commits = subprocess.run(["git","-C","/repo","log","--format=%H %s"],capture_output=True,text=True).stdout.strip().splitlines()
     hook_commits = [l.split()[0] for l in commits if "__verif feature" in l]
     checks = []
     for pid,(tech,text,note,ref) in sorted(CHECKS.items()):
+        if pid in FUZZED and "libFuzzer" not in tech:
+            tech += "; thorough tier adds a coverage-guided libFuzzer campaign over the same choice streams (oracle inside the target)"
         checks.append({
             "property_id": pid,
             "quick_cmd": f"./check {pid} quick",
@@ -82,7 +87,7 @@ def main():
             "technique": tech,
         })
     props = [json.loads(l)["id"] for l in open("/verif/properties.jsonl")]
-    na = [{"property_id": p, "reason": "no check is registered for this property: the Python-binding differential planned in DESIGN.md section 3/C27 was not built, so nothing is claimed about it (the technique applies; see DESIGN.md section 10)"} for p in props if p not in CHECKS]
+    na = [{"property_id": p, "reason": "no check is registered for this property"} for p in props if p not in CHECKS]
     m = {
         "version": 1,
         "setup_cmd": "./setup.sh",
@@ -96,6 +101,8 @@ def main():
         "engines": [
             {"name": "tfv", "path": "/verif/harness", "serves_properties": sorted(k for k in CHECKS if k not in ("C26", "C27")),
              "kind_free_text": "Rust harness: proptest-driven choice streams decoded into schemas/datasets/queries/schedules, reference models, adapter wrappers; one subcommand per property (C24 also compiles /verif/c24, the Send + Sync obligations)"},
+            {"name": "fz", "path": "/verif/fuzz", "serves_properties": sorted(FUZZED),
+             "kind_free_text": "cargo-fuzz crate with one libFuzzer binary on top of the tfv library (TFV_FUZZ_TARGET selects the oracle); driven by scripts/fuzz_campaign.py from the thorough tiers only (nightly toolchain; not needed by setup or by any quick check)"},
             {"name": "c27", "path": "/verif/py", "serves_properties": ["C27"],
              "kind_free_text": "Python runner (Hypothesis, tooling venv) over pytrustfall built from /repo; cases come from `tfcheck C27-EMIT` of the tfv harness; driven by scripts/check_C27.sh"},
             {"name": "c26", "path": "/verif/stub", "serves_properties": ["C26"],
